@@ -574,7 +574,9 @@ class Module(HasAccessibles):
                     return
                 value_err = (value,)
             pobj.timestamp = timestamp or time.time()
-            pobj.readerror = err
+            # store a copy: the exception might propagate through further read/write methods, which
+            # append to its raising_methods - the text of an error already announced must not change
+            pobj.readerror = err.copy() if isinstance(err, SECoPError) else err
             for cbfunc, cbargs in self.paramCallbacks[pname]:
                 try:
                     cbfunc(*cbargs, *value_err)
